@@ -1,6 +1,6 @@
 /* C02 / C08: bytes_compare (mtbl-private.h, real) == unsigned bytewise lexicographic order with a proper prefix first,
  * for ALL lengths, under DFCC with memcmp replaced by its ISO C contract (7.24.4.1) in witness form. */
-#include "/repo/mtbl/mtbl-private.h"
+#include "mtbl/mtbl-private.h"
 #include "spec/ghost.h"
 size_t vg_k;                 /* universal index: never assigned */
 size_t vg_memcmp_d;          /* witness: index of the first differing byte (== n if none) */
